@@ -15,7 +15,7 @@ def run(ctx):
         if ctx.facts.body(a) is None and a.endswith("next_message_slice"):
             funcs.append(a)  # reported as ANCHOR-MISSING by the callee
     lib_call.check_read_exact(ctx, funcs, r"^std::io::Read$", r"^std::io::BufReader<")
-    R.floor("CALL-R", 2)
+    R.floor("CALL-R", 1)
     c = F.consts.get("read::DEFAULT_MESSAGE_MAX_LEN")
     if c is None:
         R.violation("CONST", "missing|read::DEFAULT_MESSAGE_MAX_LEN", "constant not found", kind="ANCHOR-MISSING")
